@@ -354,6 +354,16 @@ func (c *Crew) GetChanged(ctx context.Context) (map[string]*Changed, error) {
 
 		if change.State != nil {
 			ched.State = change.State.Copy()
+			if ts, is := ched.State.Bs["timers"].(map[string]*TimerEntry); is && mid == TimersMachine {
+				// Report a snapshot, not the live map of
+				// pending timers: whoever receives the
+				// result reads it while we carry on.
+				snapshot := make(map[string]*TimerEntry, len(ts))
+				for id, te := range ts {
+					snapshot[id] = te
+				}
+				ched.State.Bs["timers"] = snapshot
+			}
 		}
 
 		if change.SpecSrc != nil {
